@@ -50,6 +50,7 @@ func (Engine) Generate(r *simcore.RNG, tier string, idx int) *simcore.Plan {
 	p := &simcore.Plan{Config: map[string]int64{}}
 	p.Config["owners"] = r.Range(2, 5)
 	p.Config["allow0"] = int64(r.Intn(2)) // owner 0 on the force-unlock allow-list
+	p.Config["jitter"] = int64(r.Intn(2)) // header times with a varying sub-millisecond part
 	faults := idx%2 == 1
 	n := int(r.Range(15, 60))
 	for i := 0; i < n; i++ {
@@ -155,6 +156,7 @@ func (Engine) Execute(run *simcore.Run) {
 			gs[lockuptypes.ModuleName] = cdc.MustMarshalJSON(&lg)
 		}
 	}})
+	n.Jitter = p.Cfg("jitter", 0) == 1
 	w := &world{run: run, n: n, owners: owners, locks: map[uint64]*refLock{}, allow0: allow0}
 	w.q = lockupkeeper.NewQuerier(*n.App.LockupKeeper)
 	begin := func(dt time.Duration) bool {
